@@ -89,12 +89,13 @@ func (g *fnGen) script(only *Obligation, withModel bool) string {
 }
 
 type solveOpts struct {
-	dir       string
-	timeoutMs int
-	thorough  bool
-	seed      int
-	keepFiles bool
-	wantRetry func(name string) bool
+	dir        string
+	timeoutMs  int
+	thorough   bool
+	seed       int
+	keepFiles  bool
+	wantRetry  func(name string) bool
+	sweepFlags []string
 }
 
 func runSolver(ctx context.Context, sc solverCfg, file string, timeoutMs int, onLine func(line string, at time.Time)) (string, error) {
